@@ -422,6 +422,9 @@ class DMRGEngine(IterativeSweeps):
 
         """
         super().post_run_cleanup()
+        if self.mixer is not None:
+            # the run ended (max_sweeps / shelved) with an active mixer
+            self.mixer_deactivate()
         self._canonicalize(True)
         logger.info(f'{self.__class__.__name__} finished after {self.sweeps} sweeps, max chi={max(self.psi.chi)}')
         if (len(self.ortho_to_envs) > 0) and (self.sweep_stats['E'][-1] > -1e-8):
